@@ -59,13 +59,19 @@ func Human(cfg *Config, req Req) map[string]interface{} {
 }
 
 // One evaluates a single (table, request) on the real code and the driver.
-func One(cfg *Config, req Req) (*Case, error) {
-	cont, err := Build(*cfg)
+func One(cfg *Config, req Req) (*Case, error) { return OneWith(cfg, req, BuildOpts{}) }
+
+// OneWith: the same on a container built with the given build options.
+func OneWith(cfg *Config, req Req, bo BuildOpts) (*Case, error) {
+	built, err := BuildWith(*cfg, bo)
 	if err != nil {
 		return nil, err
 	}
-	real := Dispatch(cont, req)
-	c := &Case{Cfg: cfg, Req: req, Real: real, RealS: real.Sx().String()}
+	real := Dispatch(built.C, req)
+	c := &Case{Cfg: cfg, Req: req, Real: real, RealS: real.Sx().String(), BO: bo}
+	if bo.Reuse != 0 {
+		c.Note = "routes declared with RouteBuilder values that are used again for the next route of their WebService (Method, Path, Operation, Consumes, Produces, To set anew)"
+	}
 	c.CfgLine = sx.K("cfg", sx.N(0), cfg.Sx()).String()
 	c.ReqLine = sx.K("route", sx.N(0), req.Sx(), sx.K("real", real.Sx(), sx.H(real.SelPath), sx.N(real.Invocations))).String()
 	ans, err := drv.Run(c.Lines())
@@ -294,11 +300,12 @@ func knownOf(p PropSpec, c *Case) string {
 }
 
 func reportSpecFailure(run *report.Run, p PropSpec, c *Case) {
+	// (fresh containers built the way the case's container was built: BuildOpts is part of the input)
 	cfg, req := Shrink(*c.Cfg, c.Req, func(cf *Config, r Req) bool {
-		o, err := One(cf, r)
+		o, err := OneWith(cf, r, c.BO)
 		return err == nil && (!p.NeedWF || o.Spec["WF"] == "1") && o.Spec[p.SpecKey] == "0" && (knownOf(p, o) == "" || p.Proj(o.RealS) != p.Proj(o.ModelS))
 	})
-	o, err := One(&cfg, req)
+	o, err := OneWith(&cfg, req, c.BO)
 	if err != nil || o.Spec[p.SpecKey] != "0" {
 		// not reproducible on a fresh container built from the table alone: the case as it was observed,
 		// with its history
@@ -313,15 +320,15 @@ func reportDisagreement(run *report.Run, p PropSpec, st StreamSpec, c *Case) {
 	run.DisagreementsChecked++
 	differs := func(o *Case) bool { return p.Proj(o.RealS) != p.Proj(o.ModelS) }
 	cfg, req := Shrink(*c.Cfg, c.Req, func(cf *Config, r Req) bool {
-		o, err := One(cf, r)
+		o, err := OneWith(cf, r, c.BO)
 		return err == nil && differs(o) && knownOf(p, o) == ""
 	})
-	o, err := One(&cfg, req)
+	o, err := OneWith(&cfg, req, c.BO)
 	if err != nil || !differs(o) {
 		o, cfg, req = c, *c.Cfg, c.Req
 	}
 	// search the neighbourhood of the shrunk case for an input on which the property itself fails
-	if searchFalsifying(run, p, st.Opts, cfg, req) {
+	if searchFalsifying(run, p, st.Opts, cfg, req, c.BO) {
 		return
 	}
 	run.AddViolation(report.Violation{Kind: "correspondence", NoInput: true,
@@ -332,7 +339,7 @@ func reportDisagreement(run *report.Run, p PropSpec, st StreamSpec, c *Case) {
 
 // searchFalsifying evaluates the property's predicate on 2,000 further requests to the table (every
 // fourth one keeps the path and method of req) and reports the first real outcome that falsifies it.
-func searchFalsifying(run *report.Run, p PropSpec, opts Opts, cfg Config, req Req) bool {
+func searchFalsifying(run *report.Run, p PropSpec, opts Opts, cfg Config, req Req, bo BuildOpts) bool {
 	if p.Near != nil && p.Near(run, opts, cfg, req) {
 		return true
 	}
@@ -340,10 +347,11 @@ func searchFalsifying(run *report.Run, p PropSpec, opts Opts, cfg Config, req Re
 		return false
 	}
 	r := rng.New(run.Seed ^ 0xabcdef)
-	cont, err := Build(cfg)
+	built, err := BuildWith(cfg, bo)
 	if err != nil {
 		return false
 	}
+	cont := built.C
 	var lines []string
 	var cs []*Case
 	cfgLine := sx.K("cfg", sx.N(0), cfg.Sx()).String()
@@ -354,7 +362,7 @@ func searchFalsifying(run *report.Run, p PropSpec, opts Opts, cfg Config, req Re
 			rq.Path, rq.Method = req.Path, req.Method
 		}
 		real := Dispatch(cont, rq)
-		cc := &Case{Cfg: &cfg, CfgLine: cfgLine, Req: rq, Real: real, RealS: real.Sx().String()}
+		cc := &Case{Cfg: &cfg, CfgLine: cfgLine, Req: rq, Real: real, RealS: real.Sx().String(), BO: bo}
 		cc.ReqLine = sx.K("route", sx.N(i), rq.Sx(), sx.K("real", real.Sx(), sx.H(real.SelPath), sx.N(real.Invocations))).String()
 		lines = append(lines, cc.ReqLine)
 		cs = append(cs, cc)
